@@ -85,3 +85,130 @@ Proof.
   intros Ht. unfold parse_timestamp. rewrite normalize_canonical. apply timestamp_roundtrip_canon. exact Ht.
 Qed.
 Print Assumptions timestamp_roundtrip.
+
+(** * exactness: an accepted timestamp string IS the printed form of the value returned *)
+(** every valid date of the range maps to a day number that maps back to it *)
+Definition date_ok (y m d : Z) : bool :=
+  let z := days_from_civil y m d in
+  negb ((0 <=? z) && (z <? 49711)) ||
+  (let '(y', m', d') := civil_from_days z in (y' =? y) && (m' =? m) && (d' =? d)).
+
+Fixpoint all_days (fuel : nat) (y m d : Z) : bool :=
+  match fuel with O => true | S f => date_ok y m d && all_days f y m (d + 1) end.
+Fixpoint all_months (fuel : nat) (y m : Z) : bool :=
+  match fuel with O => true | S f => all_days (Z.to_nat (days_in y m)) y m 1 && all_months f y (m + 1) end.
+Fixpoint all_years (fuel : nat) (y : Z) : bool :=
+  match fuel with O => true | S f => all_months 12 y 1 && all_years f (y + 1) end.
+
+Lemma all_days_spec : forall fuel y m d, all_days fuel y m d = true -> forall k, d <= k < d + Z.of_nat fuel -> date_ok y m k = true.
+Proof.
+  induction fuel as [|f IH]; intros y m d H k Hk; [lia|]. cbn [all_days] in H. apply andb_true_iff in H. destruct H as [H0 Hr].
+  destruct (Z.eq_dec k d) as [->|]; [exact H0|]. apply (IH y m (d + 1) Hr). lia.
+Qed.
+Lemma all_months_spec : forall fuel y m, all_months fuel y m = true -> forall k, m <= k < m + Z.of_nat fuel ->
+  all_days (Z.to_nat (days_in y k)) y k 1 = true.
+Proof.
+  induction fuel as [|f IH]; intros y m H k Hk; [lia|]. cbn [all_months] in H. apply andb_true_iff in H. destruct H as [H0 Hr].
+  destruct (Z.eq_dec k m) as [->|]; [exact H0|]. apply (IH y (m + 1) Hr). lia.
+Qed.
+Lemma all_years_spec : forall fuel y, all_years fuel y = true -> forall k, y <= k < y + Z.of_nat fuel -> all_months 12 k 1 = true.
+Proof.
+  induction fuel as [|f IH]; intros y H k Hk; [lia|]. cbn [all_years] in H. apply andb_true_iff in H. destruct H as [H0 Hr].
+  destruct (Z.eq_dec k y) as [->|]; [exact H0|]. apply (IH (y + 1) Hr). lia.
+Qed.
+
+Lemma dates_sweep : all_years 138 1969 = true.
+Proof. vm_compute. reflexivity. Qed.
+
+Lemma date_roundtrip y m d : 1969 <= y <= 2106 -> 1 <= m <= 12 -> 1 <= d <= days_in y m ->
+  0 <= days_from_civil y m d < 49711 -> civil_from_days (days_from_civil y m d) = (y, m, d).
+Proof.
+  intros Hy Hm Hd Hz.
+  pose proof (all_years_spec 138 1969 dates_sweep y ltac:(lia)) as H1.
+  pose proof (all_months_spec 12 y 1 H1 m ltac:(lia)) as H2.
+  assert (Hdi : 0 <= days_in y m) by (unfold days_in; destruct (m =? 2); [destruct (is_leap y); lia|]; destruct ((m =? 4) || (m =? 6) || (m =? 9) || (m =? 11)); lia).
+  pose proof (all_days_spec _ y m 1 H2 d ltac:(lia)) as H3.
+  unfold date_ok in H3. destruct ((0 <=? days_from_civil y m d) && (days_from_civil y m d <? 49711)) eqn:E; [|lia].
+  cbn [negb orb] in H3. destruct (civil_from_days (days_from_civil y m d)) as [[y' m'] d'].
+  rewrite !andb_true_iff, !Z.eqb_eq in H3. destruct H3 as [[-> ->] ->]. reflexivity.
+Qed.
+
+Lemma dig_char c x : dig c = Some x -> c = c0 + x /\ 0 <= x <= 9.
+Proof. unfold dig, is_digit, c0. destruct ((48 <=? c) && (c <=? 57)) eqn:E; [|discriminate]. intros [= <-]. lia. Qed.
+Lemma num2_digits a b n : num2 a b = Some n -> a = c0 + n / 10 /\ b = c0 + n mod 10 /\ 0 <= n < 100.
+Proof.
+  unfold num2. destruct (dig a) as [x|] eqn:Ea; [|discriminate]. destruct (dig b) as [y|] eqn:Eb; [|discriminate].
+  intros [= <-]. destruct (dig_char _ _ Ea) as [-> Hx]. destruct (dig_char _ _ Eb) as [-> Hy].
+  assert (E1 : (x * 10 + y) / 10 = x) by lia. assert (E2 : (x * 10 + y) mod 10 = y) by lia. rewrite E1, E2. repeat split; lia.
+Qed.
+Lemma num2_chars a b n : num2 a b = Some n -> two n = [a; b] /\ 0 <= n < 100.
+Proof. intros H. destruct (num2_digits _ _ _ H) as (-> & -> & Hn). split; [reflexivity|exact Hn]. Qed.
+Lemma num4_chars a b c d n : num4 a b c d = Some n -> four n = [a; b; c; d] /\ 0 <= n < 10000.
+Proof.
+  unfold num4. destruct (num2 a b) as [x|] eqn:Ea; [|discriminate]. destruct (num2 c d) as [y|] eqn:Ec; [|discriminate].
+  intros [= <-]. destruct (num2_digits _ _ _ Ea) as (-> & -> & Hx). destruct (num2_digits _ _ _ Ec) as (-> & -> & Hy).
+  unfold four. split; [|lia].
+  assert (E1 : (x * 100 + y) / 1000 = x / 10) by lia. assert (E2 : (x * 100 + y) / 100 mod 10 = x mod 10) by lia.
+  assert (E3 : (x * 100 + y) / 10 mod 10 = y / 10) by lia. assert (E4 : (x * 100 + y) mod 10 = y mod 10) by lia.
+  rewrite E1, E2, E3, E4. reflexivity.
+Qed.
+
+Theorem parse_timestamp_canon_exact s t : parse_timestamp_canon s = Some t -> timestamp_string t = s /\ 0 <= t < 2^32.
+Proof.
+  unfold parse_timestamp_canon.
+  destruct s as [|y1 [|y2 [|y3 [|y4 [|h1 [|m1 [|m2 [|h2 [|d1 [|d2 [|tch [|hh1 [|hh2 [|k1 [|mi1 [|mi2 [|k2 [|s1 [|s2 [|zz [|extra rest]]]]]]]]]]]]]]]]]]]]]; try discriminate.
+  destruct ((h1 =? 45) && (h2 =? 45) && (tch =? 84) && (k1 =? 58) && (k2 =? 58) && (zz =? 90)) eqn:Esep; [|discriminate].
+  rewrite !andb_true_iff, !Z.eqb_eq in Esep. destruct Esep as [[[[[-> ->] ->] ->] ->] ->].
+  destruct (num4 y1 y2 y3 y4) as [y|] eqn:Ey; [|discriminate]. destruct (num2 m1 m2) as [m|] eqn:Em; [|discriminate].
+  destruct (num2 d1 d2) as [d|] eqn:Ed; [|discriminate]. destruct (num2 hh1 hh2) as [hh|] eqn:Eh; [|discriminate].
+  destruct (num2 mi1 mi2) as [mi|] eqn:Emi; [|discriminate]. destruct (num2 s1 s2) as [ss|] eqn:Es; [|discriminate].
+  destruct ((1 <=? m) && (m <=? 12) && (1 <=? d) && (d <=? days_in y m) && (hh <? 24) && (mi <? 60) && (ss <? 60)) eqn:Erng; [|discriminate].
+  rewrite !andb_true_iff in Erng. destruct Erng as [[[[[[R1 R2] R3] R4] R5] R6] R7].
+  rewrite Z.leb_le in R1, R2, R3, R4. rewrite Z.ltb_lt in R5, R6, R7.
+  set (z := days_from_civil y m d).
+  destruct ((0 <=? z * 86400 + hh * 3600 + mi * 60 + ss) && (z * 86400 + hh * 3600 + mi * 60 + ss <? 2^32)) eqn:Et; [|discriminate].
+  rewrite andb_true_iff, Z.leb_le, Z.ltb_lt in Et. intros [= <-]. split; [|lia].
+  destruct (num4_chars _ _ _ _ _ Ey) as [Hy4 Hy]. destruct (num2_chars _ _ _ Em) as [Hm2 _]. destruct (num2_chars _ _ _ Ed) as [Hd2 _].
+  destruct (num2_chars _ _ _ Eh) as [Hh2 Hh]. destruct (num2_chars _ _ _ Emi) as [Hmi2 Hmi]. destruct (num2_chars _ _ _ Es) as [Hs2 Hs].
+  assert (Hsec : 0 <= hh * 3600 + mi * 60 + ss < 86400) by lia.
+  assert (Hdiv : (z * 86400 + hh * 3600 + mi * 60 + ss) / 86400 = z).
+  { replace (z * 86400 + hh * 3600 + mi * 60 + ss) with ((hh * 3600 + mi * 60 + ss) + z * 86400) by ring.
+    rewrite Z.div_add by lia. rewrite Z.div_small by lia. lia. }
+  assert (Hmod : (z * 86400 + hh * 3600 + mi * 60 + ss) mod 86400 = hh * 3600 + mi * 60 + ss).
+  { replace (z * 86400 + hh * 3600 + mi * 60 + ss) with ((hh * 3600 + mi * 60 + ss) + z * 86400) by ring.
+    rewrite Z.mod_add by lia. apply Z.mod_small. lia. }
+  assert (Hz : 0 <= z < 49711) by lia.
+  (* the year: a date with a day number in range lies in 1969..2106 *)
+  assert (Hyr : 1969 <= y <= 2106).
+  { unfold z, days_from_civil in Hz.
+    assert (Hdoy : 0 <= (153 * (if m >? 2 then m - 3 else m + 9) + 2) / 5 + d - 1 <= 367).
+    { assert (d <= 31) by (unfold days_in in R4; destruct (m =? 2); [destruct (is_leap y); lia|]; destruct ((m =? 4) || (m =? 6) || (m =? 9) || (m =? 11)); lia).
+      destruct (m >? 2) eqn:Em2; [assert (0 <= m - 3 <= 9) by lia|assert (10 <= m + 9 <= 11) by lia]; lia. }
+    set (doy := (153 * (if m >? 2 then m - 3 else m + 9) + 2) / 5 + d - 1) in *.
+    set (yy := if m <=? 2 then y - 1 else y) in *.
+    assert (Hyy : 1968 <= yy <= 2106).
+    { pose proof (Z.div_mod yy 400 ltac:(lia)) as Hdm. pose proof (Z.mod_pos_bound yy 400 ltac:(lia)) as Hmb.
+      set (era := yy / 400) in *. replace (yy - era * 400) with (yy mod 400) in Hz by lia.
+      set (yoe := yy mod 400) in *.
+      assert (0 <= yoe / 4 <= 99) by lia. assert (0 <= yoe / 100 <= 3) by lia. lia. }
+    unfold yy in Hyy. destruct (m <=? 2); lia. }
+  unfold timestamp_string. rewrite Hdiv, Hmod. unfold z.
+  rewrite (date_roundtrip y m d Hyr ltac:(lia) ltac:(lia) Hz).
+  assert (H1 : (hh * 3600 + mi * 60 + ss) / 3600 = hh) by (symmetry; apply Z.div_unique with (mi * 60 + ss); lia).
+  assert (H2 : (hh * 3600 + mi * 60 + ss) / 60 mod 60 = mi).
+  { replace ((hh * 3600 + mi * 60 + ss) / 60) with (hh * 60 + mi) by (apply Z.div_unique with ss; lia).
+    replace (hh * 60 + mi) with (mi + hh * 60) by ring. rewrite Z.mod_add by lia. apply Z.mod_small. lia. }
+  assert (H3 : (hh * 3600 + mi * 60 + ss) mod 60 = ss).
+  { replace (hh * 3600 + mi * 60 + ss) with (ss + (hh * 60 + mi) * 60) by ring. rewrite Z.mod_add by lia. apply Z.mod_small. lia. }
+  rewrite H1, H2, H3, Hy4, Hm2, Hd2, Hh2, Hmi2, Hs2. reflexivity.
+Qed.
+Print Assumptions parse_timestamp_canon_exact.
+
+(** with the liberal forms: whatever is accepted denotes, after the documented rewriting (a
+    one-digit hour gets its zero, an all-zero fraction is dropped), exactly the printed value *)
+Theorem parse_timestamp_exact s t : parse_timestamp s = Some t ->
+  exists s', normalize_ts s = Some s' /\ timestamp_string t = s' /\ 0 <= t < 2^32.
+Proof.
+  unfold parse_timestamp. destruct (normalize_ts s) as [s'|]; [|discriminate]. intros H.
+  exists s'. split; [reflexivity|]. apply parse_timestamp_canon_exact. exact H.
+Qed.
